@@ -47,7 +47,7 @@ class FixEmptySequenceComparison(
                         comp_var = right if empty_left else left
                         match maybe_parent:
                             case cst.If() | cst.Assert():
-                                return (
+                                new = (
                                     comp_var
                                     if isinstance(target.operator, cst.NotEqual)
                                     else cst.UnaryOperation(
@@ -56,7 +56,7 @@ class FixEmptySequenceComparison(
                                     )
                                 )
                             case _:
-                                return (
+                                new = (
                                     cst.parse_expression(f"bool({comp_var.value})")
                                     if isinstance(target.operator, cst.NotEqual)
                                     else cst.UnaryOperation(
@@ -64,8 +64,33 @@ class FixEmptySequenceComparison(
                                         expression=comp_var,
                                     )
                                 )
+                        return self._keep_apart(original_node, new)
 
         return original_node
+
+    def _keep_apart(
+        self, original_node: cst.Comparison, new: cst.BaseExpression
+    ) -> cst.BaseExpression:
+        """
+        `if[]!=x:` and `if(x != []):` need no space after the keyword because the
+        comparison starts with a bracket; what replaces it starts with a name.
+        Keep the comparison's own parentheses, or add a pair when a name or keyword
+        directly precedes the comparison.
+        """
+        if original_node.lpar:
+            return new.with_changes(
+                lpar=[*original_node.lpar, *new.lpar],
+                rpar=[*new.rpar, *original_node.rpar],
+            )
+        start = self.node_position(original_node).start
+        lines = self.context.module.code.split("\n") if self.context.module else []
+        if 0 < start.line <= len(lines) and start.column > 0:
+            before = lines[start.line - 1][start.column - 1 : start.column]
+            if before.isalnum() or before == "_":
+                return new.with_changes(
+                    lpar=[cst.LeftParen(), *new.lpar], rpar=[*new.rpar, cst.RightParen()]
+                )
+        return new
 
     def _is_empty_sequence(self, node: cst.BaseExpression):
         match node:
